@@ -4225,12 +4225,14 @@ func (d *Document) parseAnchorDrawing(decoder *xml.Decoder, startElement xml.Sta
 					WrapPolygon: polygon,
 				}
 			case "wrapTopAndBottom":
-				anchor.WrapTopAndBottom = &WrapTopAndBottom{
-					DistT: getAttributeValue(t.Attr, "distT"),
-					DistB: getAttributeValue(t.Attr, "distB"),
-				}
-				if err := d.skipElement(decoder, t.Name.Local); err != nil {
+				effectExtent, err := d.parseWrapEffectExtent(decoder, t.Name.Local)
+				if err != nil {
 					return nil, err
+				}
+				anchor.WrapTopAndBottom = &WrapTopAndBottom{
+					DistT:        getAttributeValue(t.Attr, "distT"),
+					DistB:        getAttributeValue(t.Attr, "distB"),
+					EffectExtent: effectExtent,
 				}
 			case "cNvGraphicFramePr":
 				framePr, err := d.parseCNvGraphicFramePr(decoder)
@@ -4352,6 +4354,36 @@ func (d *Document) parseWrapPolygon(decoder *xml.Decoder, endName string) (*Wrap
 		case xml.EndElement:
 			if t.Name.Local == endName {
 				return polygon, nil
+			}
+		}
+	}
+}
+
+// parseWrapEffectExtent 解析 wp:wrapTopAndBottom 中可选的 wp:effectExtent
+func (d *Document) parseWrapEffectExtent(decoder *xml.Decoder, endName string) (*EffectExtent, error) {
+	var effectExtent *EffectExtent
+	for {
+		token, err := decoder.Token()
+		if err != nil {
+			return nil, WrapError("parse_wrap_effect_extent", err)
+		}
+
+		switch t := token.(type) {
+		case xml.StartElement:
+			if t.Name.Local == "effectExtent" {
+				effectExtent = &EffectExtent{
+					L: getAttributeValue(t.Attr, "l"),
+					T: getAttributeValue(t.Attr, "t"),
+					R: getAttributeValue(t.Attr, "r"),
+					B: getAttributeValue(t.Attr, "b"),
+				}
+			}
+			if err := d.skipElement(decoder, t.Name.Local); err != nil {
+				return nil, err
+			}
+		case xml.EndElement:
+			if t.Name.Local == endName {
+				return effectExtent, nil
 			}
 		}
 	}
